@@ -58,6 +58,24 @@ CLAIMED = {
         "technique": "Coq proof (iff with the textbook verification equation, modular arithmetic, DER/BIP66) + checked correspondence",
         "design": "DESIGN.md section 8 / C02",
     },
+    "C08": {
+        "text": "Machine-checked proof (Coq 8.16.1): for every 20-byte hash and network the address to_bitcoin_address encodes maps through "
+                "scriptpubkey to exactly the P2PKH / P2SH template committing to that hash (also for ANY accepted Base58Check string with "
+                "one of the four version bytes and a 20-byte payload); every valid segwit address (all versions 0..16, all legal program "
+                "lengths, upper case included) maps to OP_n <push program> (P2WPKH/P2WSH for v0); a valid SEC1 key in either form maps to "
+                "<push key> OP_CHECKSIG; an address string is never taken for a key (unconditional); input that is none of the three is "
+                "refused with ValueError and never mapped to a script - the dispatcher is characterised as one equation over the three "
+                "decoders for every byte string, and every Ok result is a standard template. Version bytes, hrp list, length checks and "
+                "the dispatch order are read from the Python source by ast on every run and proved equal to the spec. Correspondence: "
+                "payload classes x networks x kinds, all 252 unknown version bytes, wrong payload lengths, malformed key buffers, "
+                "addresses made only of Base58 characters, independent reference decoders.",
+        "note": "The segwit theorems carry the explicit premise that the address is not also checksum-valid Base58Check (dispatcher "
+                "order; discharged by theorem whenever the address contains 0 or l; otherwise a 2^-32 coincidence for a real hash). 'Valid "
+                "SEC1 key' is relative to C14's sec1_facts (proved on small curves, premise for secp256k1). Reuses the C06/C07/C13/C14 "
+                "models. Trusted: Coq kernel, extraction, harness, hashlib.",
+        "technique": "Coq proof (composition of the Base58/Bech32/SEC1/script theorems, total characterisation of the dispatcher) + ast-generated constants + correspondence",
+        "design": "DESIGN.md section 8 / C08",
+    },
     "C10": {
         "text": "Machine-checked proof (Coq 8.16.1), all at full strength for an arbitrary 32-byte hash and any duplicate-free 2048-word "
                 "list: entropy of 16/20/24/28/32 bytes gives 12/15/18/21/24 list words (other lengths ValueError) and equals the BIP39 "
